@@ -15,6 +15,9 @@ CONSTANTS
   Lets = {"l1", "l2"}
   Calls = {"c1"}
   Printable = {"l1", "c1"}
+  Lambdas <- Lam3
+  Arity <- Arity3
+  PrintableParam <- PrintableParam3
   MaxChain = 2
   SafeRename = TRUE
 INVARIANTS TypeOK
